@@ -1,0 +1,327 @@
+//go:build verif
+// +build verif
+
+// Verification hook for property C10 (build tag "verif").  It only adds
+// exported entry points that call the package's unexported functions
+// unchanged, and exports the parsed configuration as plain data.
+
+package cmd
+
+import (
+	"bytes"
+	"context"
+	"fmt"
+	"hash/fnv"
+	"io/ioutil"
+	"os"
+	"path/filepath"
+	"sort"
+	"strings"
+)
+
+// VerifC10Result is what VerifC10Parse observed.
+type VerifC10Result struct {
+	Printed      string // printCfg(skipComments, skipVer, !annot): result.js Config
+	PrintedFull  string // printCfg(!skipComments, skipVer=true -> no version line, !annot): the -p text without its version line
+	PrintedAnnot string // printCfg(skipComments, skipVer, annot): result.js ConfigHTML
+	Hash         uint32 // fnv32 of Printed, as assemble() computes ConfigHash
+	Steps        string // printSteps(!annot)
+	Err          string // rendered error text, if rejected
+	ErrShort     string // err.Error()
+	Panic        string // recovered panic, if any
+	Cfg          *VerifC10Cfg
+}
+
+// VerifC10Cfg is the configuration as plain data.
+type VerifC10Cfg struct {
+	Titles, Authors, SeeAlso []string
+	PVars                    [][2]string
+	Roles                    []VerifC10Role
+	Actors                   []VerifActor
+	Scenes                   []VerifC10SceneSpec
+	TempoNs                  int64
+	StoryLine                []string
+	HasRepeatFrom            bool
+	RepeatFrom               string
+	RepeatActNum             int
+	RepeatCount              int
+	RepeatTimeout            int64
+	Play                     [][]VerifScene // Actor == "" for a line without actor (mood change)
+	Audience                 []VerifC10Member
+	Vars                     []VerifC10Var
+}
+
+// VerifC10Role is one role.
+type VerifC10Role struct {
+	Name, Cleanup, Spotlight string
+	Sigs                     []VerifC10Sig
+	SigNames                 []string
+	Actions                  [][2]string // name, command (in actionNames order)
+}
+
+// VerifC10Sig is one signal parser.
+type VerifC10Sig struct {
+	Name       string
+	Typ        int
+	Re         string
+	ReGroup    string
+	TimeLayout string
+}
+
+// VerifC10SceneSpec is one scene specification.
+type VerifC10SceneSpec struct {
+	Char               string
+	Entails            []VerifC10Entail
+	MoodStart, MoodEnd string
+}
+
+// VerifC10Entail is one action group.
+type VerifC10Entail struct {
+	Actor   string
+	Actions []string
+}
+
+// VerifC10Member is one audience member.
+type VerifC10Member struct {
+	Name        string
+	ActiveCond  string
+	ActiveDeps  [][2]string
+	Assignments []VerifC10Assign
+	HasExpect   bool
+	ExpectFsm   string
+	ExpectExpr  string
+	ExpectDeps  [][2]string
+	ObsVars     [][2]string
+	DrawEvents  []bool
+	YLabel      string
+	DisablePlot bool
+	FoulOnBad   int
+	FoulOnGood  int
+}
+
+// VerifC10Assign is one collects/computes clause.
+type VerifC10Assign struct {
+	Var  string
+	Expr string
+	Deps [][2]string
+	Mode int
+	N    int
+}
+
+// VerifC10Var is one variable.
+type VerifC10Var struct {
+	Actor, Sig string
+	IsArray    bool
+	Watchers   []string
+}
+
+func verifC10Deps(e expr) [][2]string {
+	var r [][2]string
+	for d := range e.deps {
+		r = append(r, [2]string{d.actorName, d.sigName})
+	}
+	sort.Slice(r, func(i, j int) bool {
+		if r[i][0] != r[j][0] {
+			return r[i][0] < r[j][0]
+		}
+		return r[i][1] < r[j][1]
+	})
+	return r
+}
+
+func verifC10Export(cfg *config) *VerifC10Cfg {
+	out := &VerifC10Cfg{
+		Titles:        append([]string{}, cfg.titleStrings...),
+		Authors:       append([]string{}, cfg.authors...),
+		SeeAlso:       append([]string{}, cfg.seeAlso...),
+		TempoNs:       int64(cfg.tempo),
+		StoryLine:     append([]string{}, cfg.storyLine...),
+		RepeatActNum:  cfg.repeatActNum,
+		RepeatCount:   cfg.repeatCount,
+		RepeatTimeout: int64(cfg.repeatTimeout),
+	}
+	if cfg.repeatFrom != nil {
+		out.HasRepeatFrom = true
+		out.RepeatFrom = cfg.repeatFrom.String()
+	}
+	for _, n := range cfg.pVarNames {
+		out.PVars = append(out.PVars, [2]string{n, cfg.pVars[n]})
+	}
+	for _, rn := range cfg.roleNames {
+		r := cfg.roles[rn]
+		or := VerifC10Role{Name: r.name, Cleanup: string(r.cleanupCmd), Spotlight: string(r.spotlightCmd),
+			SigNames: append([]string{}, r.sigNames...)}
+		for _, rp := range r.sigParsers {
+			or.Sigs = append(or.Sigs, VerifC10Sig{Name: rp.name, Typ: int(rp.typ), Re: rp.re.String(),
+				ReGroup: rp.reGroup, TimeLayout: rp.timeLayout})
+		}
+		for _, an := range r.actionNames {
+			or.Actions = append(or.Actions, [2]string{an, string(r.actionCmds[an])})
+		}
+		out.Roles = append(out.Roles, or)
+	}
+	for _, an := range cfg.actorNames {
+		a := cfg.actors[an]
+		out.Actors = append(out.Actors, VerifActor{Name: a.name, Role: a.role.name, ExtraEnv: a.extraEnv})
+	}
+	for _, c := range cfg.sceneSpecChars {
+		sc := cfg.sceneSpecs[c]
+		os := VerifC10SceneSpec{Char: sc.name, MoodStart: sc.moodStart, MoodEnd: sc.moodEnd}
+		for _, ag := range sc.entails {
+			os.Entails = append(os.Entails, VerifC10Entail{Actor: ag.actor.name, Actions: append([]string{}, ag.actions...)})
+		}
+		out.Scenes = append(out.Scenes, os)
+	}
+	for _, act := range cfg.play {
+		oa := []VerifScene{}
+		for i := range act {
+			sc := &act[i]
+			os := VerifScene{WaitUntilNs: int64(sc.waitUntil)}
+			for _, l := range sc.concurrentLines {
+				ol := VerifLine{}
+				if l.actor != nil {
+					ol.Actor = l.actor.name
+				}
+				for _, s := range l.steps {
+					ol.Steps = append(ol.Steps, VerifStep{Typ: int(s.typ), Action: s.action, FailOk: s.failOk})
+				}
+				os.Lines = append(os.Lines, ol)
+			}
+			oa = append(oa, os)
+		}
+		out.Play = append(out.Play, oa)
+	}
+	for _, an := range cfg.audienceNames {
+		a := cfg.audience[an]
+		om := VerifC10Member{
+			Name:        a.name,
+			ActiveCond:  a.auditor.activeCond.src,
+			ActiveDeps:  verifC10Deps(a.auditor.activeCond),
+			YLabel:      a.observer.ylabel,
+			DisablePlot: a.observer.disablePlot,
+			FoulOnBad:   int(a.auditor.foulOnBad),
+			FoulOnGood:  int(a.auditor.foulOnGood),
+		}
+		for _, as := range a.auditor.assignments {
+			om.Assignments = append(om.Assignments, VerifC10Assign{Var: as.targetVar, Expr: as.expr.src,
+				Deps: verifC10Deps(as.expr), Mode: int(as.assignMode), N: as.N})
+		}
+		if a.auditor.expectFsm != nil {
+			om.HasExpect = true
+			om.ExpectFsm = a.auditor.expectFsm.name
+			om.ExpectExpr = a.auditor.expectExpr.src
+			om.ExpectDeps = verifC10Deps(a.auditor.expectExpr)
+		}
+		for _, vn := range a.observer.obsVarNames {
+			om.ObsVars = append(om.ObsVars, [2]string{vn.actorName, vn.sigName})
+			om.DrawEvents = append(om.DrawEvents, a.observer.obsVars[vn].drawEvents)
+		}
+		out.Audience = append(out.Audience, om)
+	}
+	for _, vn := range cfg.varNames {
+		v := cfg.vars[vn]
+		out.Vars = append(out.Vars, VerifC10Var{Actor: vn.actorName, Sig: vn.sigName, IsArray: v.isArray,
+			Watchers: append([]string{}, v.watcherNames...)})
+	}
+	return out
+}
+
+// VerifC10Parse writes files into a fresh temporary directory, parses
+// mainFile (searched in the includePath entries, given relative to that
+// directory; "" is the directory itself) with the -D definitions the way
+// initArgs + the main command do (parseDefines, newReader, parseCfg,
+// compileV2), prints the configuration with the flag combinations the
+// command uses, and exports the configuration as data.
+func VerifC10Parse(files map[string]string, mainFile string, defines, includePath []string) (res VerifC10Result) {
+	tmp, err := ioutil.TempDir("", "shk-verif-c10")
+	if err != nil {
+		panic(err)
+	}
+	defer os.RemoveAll(tmp)
+	for name, data := range files {
+		p := filepath.Join(tmp, name)
+		if err := os.MkdirAll(filepath.Dir(p), 0755); err != nil {
+			panic(err)
+		}
+		if err := ioutil.WriteFile(p, []byte(data), 0644); err != nil {
+			panic(err)
+		}
+	}
+	var ip []string
+	for _, p := range includePath {
+		ip = append(ip, filepath.Join(tmp, p))
+	}
+	fail := func(err error) {
+		var b bytes.Buffer
+		RenderError(&b, err)
+		res.Err = strings.ReplaceAll(b.String(), tmp, "<tmp>")
+		res.ErrShort = strings.ReplaceAll(err.Error(), tmp, "<tmp>")
+	}
+	func() {
+		defer func() {
+			if r := recover(); r != nil {
+				res.Panic = fmt.Sprintf("%v", r)
+			}
+		}()
+		ctx := context.Background()
+		cfg := newConfig()
+		cfg.defines = defines
+		cfg.includePath = ip
+		if err := cfg.parseDefines(); err != nil {
+			fail(err)
+			return
+		}
+		rd, err := newReader(ctx, mainFile, ip)
+		if err != nil {
+			fail(err)
+			return
+		}
+		defer rd.close()
+		if err := cfg.parseCfg(ctx, rd); err != nil {
+			fail(err)
+			return
+		}
+		if err := cfg.compileV2(); err != nil {
+			fail(err)
+			return
+		}
+		var b bytes.Buffer
+		cfg.printCfg(&b, true /*skipComments*/, true /*skipVer*/, false /*annot*/)
+		res.Printed = b.String()
+		h := fnv.New32()
+		h.Write(b.Bytes())
+		res.Hash = h.Sum32()
+		b.Reset()
+		cfg.printCfg(&b, false /*skipComments*/, true /*skipVer*/, false /*annot*/)
+		res.PrintedFull = strings.ReplaceAll(b.String(), tmp, "<tmp>")
+		b.Reset()
+		cfg.printCfg(&b, true /*skipComments*/, true /*skipVer*/, true /*annot*/)
+		res.PrintedAnnot = b.String()
+		b.Reset()
+		cfg.printSteps(&b, false)
+		res.Steps = b.String()
+		res.Cfg = verifC10Export(cfg)
+	}()
+	return res
+}
+
+// VerifC10ExprVars compiles an expression the way checkExpr does and returns
+// the variable names it mentions (govaluate's Vars(), de-duplicated, sorted).
+func VerifC10ExprVars(src string) (vars []string, errText string) {
+	c, err := compileExpr(src)
+	if err != nil {
+		return nil, err.Error()
+	}
+	seen := map[string]struct{}{}
+	for _, v := range c.Vars() {
+		if _, ok := seen[v]; !ok {
+			seen[v] = struct{}{}
+			vars = append(vars, v)
+		}
+	}
+	sort.Strings(vars)
+	return vars, ""
+}
+
+// VerifC10IdentOk reports whether checkIdent accepts the name.
+func VerifC10IdentOk(name string) bool { return checkIdent(name) == nil }
